@@ -19,6 +19,14 @@ CLAIMS = {
          "Not decided (v1): which check a corrupted string reaches first. Trusted: std axioms.", TECH_SUM),
  "C17": ("proof", "Incomplete/Partial payload terms and the exact row regions in which they are produced are compared with the reference; guards read no byte at index >= 16, so appended bytes move a scenario only along the length axis.", "5/C17",
          "Trusted: std axioms; the accepting row for len = 16+L is the same table as C02.", TECH_SUM + "; read-set scan of guards"),
+ "C03": ("proof", "Every MIR Assert terminator and every panicking std callee on any path of the in-scope entry points and accessors is an inequality obligation that must be entailed by its dominating guards (Fourier-Motzkin); str index bounds must be provable char boundaries; loops must advance a finite iterator; no unknown callee; thorough tier repeats it for the release configuration.", "5/C03",
+         "INV2 of v2 headers is proved at construction; INV1 of v1 headers is assumed here (its derivation is C01.S). Trusted: std functions with an axiom are total apart from their stated panic conditions; allocation failure / stack exhaustion out of scope.", "panic-obligation extraction from MIR + linear entailment under dominating guards; loop-idiom and call-graph rules"),
+ "C04": ("other", "v2 and auto-detector decided for every input (monotone length guards, read-set inside [0,16+L), header = input[..16+L]); v1 clause structural (window cut at first CR + 2, CRLF established before Ok).", "5/C04",
+         "The v1 part rests on rules C01.W/C01.S (token-layout axiom). Trusted: std axioms.", TECH_SUM + "; guard monotonicity and read-set scans"),
+ "C14": ("proof", "INV2 is proved at every accepting outcome of the v2 parser; under INV2 and per address variant each accessor summary must equal the reference view (shared split term, sizes, family images).", "5/C14",
+         "Trusted: std axioms (Cow deref, slice index/len, min). Headers built by hand from public fields are outside 'accepted headers'.", "MIR value-flow summaries under a proved type invariant compared with reference views"),
+ "C20": ("proof", "For each of the 19 WriteToHeader impls every Ok outcome must leave writer = old ++ E and return Ok(len E) for the reference encoding E, no Err outcome may be possible when the value is within its limit and the writer has room, over-limit values are refused with nothing written; Writer::write / finish / From / flush and the to_bytes default are compared with their references.", "5/C20",
+         "Reading of 'below its size limit': the writer has room for the whole encoding; refusal between segments near the 65551-byte guard is not spoken to. Trusted: std axioms (write_all over Writer::write, to_be_bytes, octets).", TECH_SUM),
  "C19": ("proof", "Field provenance of the 13 constructors/conversions by value-flow summary; v1/v2 tuple conversions compared as siblings.", "5/C19",
          "Trusted: SocketAddrV4/V6::{ip,port} return the stored components (axiom); Into::into on a generic argument is uninterpreted.", "MIR value-flow summary compared slot by slot with the reference provenance; sibling comparison"),
 }
